@@ -23,13 +23,15 @@ echo "patched         : $B"
 echo "patched doctests: $DOC"
 echo "failed tests    : $FAILED"
 RES=""
+SCRATCH_OUT=$(mktemp -d /tmp/seedchk-out.XXXXXX)  # evidence / replays of runs against the patched tree must not overwrite the real ones
 git -C /repo apply $OUT/patch.diff || { echo "patch does not apply to /repo"; exit 3; }
 for P in $PROPS; do
-  O=$(cd /verif && ./check $P quick 2>&1); RC=$?
+  O=$(cd /verif && VERIF_OUT=$SCRATCH_OUT ./check $P quick 2>&1); RC=$?
   echo "--- ./check $P -> rc=$RC"; echo "$O" | grep -E "VIOLATION|UNDECIDED|OK |failed obligation" | head -8
   RES="$RES $P:rc=$RC"
 done
 git -C /repo checkout -- .
+rm -rf $SCRATCH_OUT
 python3 - "$ID" "$A" "$B" "$DOC" "$FAILED" "$RES" "$PROPS" <<'P'
 import json,sys,os
 ID,A,B,DOC,FAILED,RES,PROPS=sys.argv[1:8]
